@@ -15,3 +15,15 @@ def r11_2_day_carry(ctx: Ctx) -> RuleResult:
     rr.states = ctx.cache.get("sweep_steps", 0)
     decide(rr, groups, "R11.2", {})
     return rr
+
+
+@rule("C11")
+def r11_1_calendar_retention(ctx: Ctx) -> RuleResult:
+    from ..retention import check_retention
+
+    from ..core import anchor_files
+
+    rr = RuleResult("R11.1", "derived values keep the calendar: no call drops an optional `calendar` while one is in scope", min_instances=10)
+    files = anchor_files("C11")
+    check_retention(ctx, rr, lambda f: f.mod.rel in files)
+    return rr
